@@ -179,8 +179,7 @@ def run(ck, F, tier):
             for fname, fv in v[2].items():
                 if fname == "fill_policy":
                     a = single_atom(fv) if isinstance(fv, Poly) else None
-                    good = a is not None and atom_fn(a) == "match" and atom_args(a)[0] == var("self.uniform") and \
-                        dict(a[3]) == {"True": ("variant", "Uniform"), "False": ("variant", "Random")}
+                    good = fv == app("ite", var("self.uniform"), ("variant", "Uniform"), ("variant", "Random"))
                 else:
                     good = fv == var("self." + rename.get(fname, fname))
                 if not good:
@@ -304,7 +303,9 @@ def run(ck, F, tier):
         oks = pth(rows.get((True, "_"))) == "ldpc" and pth(rows.get((False, ("Some", "_")))) == "bch" and pth(rows.get((False, "None"))) == "ldpc"
     ck.inst("L6", "statistics-selection", oks, fb.span, "(force_ldpc, bch) -> ldpc if forced, bch when present, else ldpc")
     wb = F.body("cli::ber::Progress::work")
-    tw = Tracer(F, r"std::io::Write::write_fmt|cli::ber::Progress::format_progress", mode="int")
+    # private helpers of Progress (e.g. an extracted "write the line to the output files") are expanded
+    tw = Tracer(F, r"std::io::Write::write_fmt|cli::ber::Progress::format_progress", mode="int",
+                inline=lambda p: F.private_helper(p, "cli::ber::Progress::", keep=r".*::format_(progress|header)"))
     env = {}
     tw.bind(wb.params[0], var("self"), env)
     tw.eval(wb.value, env)
